@@ -347,6 +347,28 @@ class NP:
             return to_obj(np.where(cb, a, b))
         return r
 
+    @staticmethod
+    def _arith(op, npf):
+        def g(a, b, out=None, where=True, dtype=None, **kw):
+            ao, bo = _as_obj(a), _as_obj(b)
+            if ao.dtype != object and bo.dtype != object and (out is None or out.dtype != object):
+                return to_obj(npf(a, b, out=out, where=where, dtype=dtype, **kw)) if out is not None or dtype is not None or where is not True \
+                    else to_obj(npf(a, b, **kw))
+            r = _map(op, ao, bo)
+            if out is not None:
+                w = np.broadcast_to(np.asarray(where), out.shape)
+                for idx in np.ndindex(out.shape):
+                    if w[idx]: out[idx] = r[idx]
+                return out
+            return r if r.shape else r[()]
+        return g
+
+    def divide(self, a, b, **kw): return self._arith(lambda x, y: x / y, np.divide)(a, b, **kw)
+    true_divide = divide
+    def multiply(self, a, b, **kw): return self._arith(lambda x, y: x * y, np.multiply)(a, b, **kw)
+    def add(self, a, b, **kw): return self._arith(lambda x, y: x + y, np.add)(a, b, **kw)
+    def subtract(self, a, b, **kw): return self._arith(lambda x, y: x - y, np.subtract)(a, b, **kw)
+
     def deg2rad(self, a, **kw): return self._el(lambda x: Rad(x), a, np.deg2rad)
     radians = deg2rad
     def rad2deg(self, a, **kw): return self._el(lambda x: x.deg if isinstance(x, Rad) else x / DEG(), a, np.rad2deg)
@@ -534,6 +556,7 @@ class DMat:
     ndim = 2
     dtype = np.dtype(object)
     nnz = property(lambda s: len(s._csr()[0]))
+    size = property(lambda s: len(s._csr()[0]))
 
     @property
     def T(self): return DMat(self.A.T.copy())
@@ -555,6 +578,7 @@ class DMat:
     todense = toarray
     def astype(self, *a, **k): return self
     def eliminate_zeros(self): pass
+    def __delattr__(self, k): pass
     def sum_duplicates(self): pass
     def sort_indices(self): pass
     has_sorted_indices = True
